@@ -15,7 +15,9 @@ RULE = ('operator x (value, unit) x operand x form {Quantity-op-number, number-o
         '+-1, 2, 3, 7, -5, 0.5, -1.5, 1e308, 5e-324, +-2**64, inf, -inf, nan, True) plus Hypothesis ints/floats. '
         'Non-trivial = an operand is zero/non-finite/bool, or the raw outcome is an exception, or the form is reflected '
         'or Quantity-Quantity; distinct by (op, form, operands, units).')
-ASSUMPTIONS = ['shift counts and integer exponents are bounded (|x| <= 512) so results stay representable',
+ASSUMPTIONS = ['operands are ints, floats and bools as the property says; Fraction/Decimal/complex operands are not used: how '
+               'those types dispatch to a foreign operand is their own business (Fraction ** Quantity takes its float path)',
+               'shift counts and integer exponents are bounded (|x| <= 512) so results stay representable',
                'reflected three-argument pow is not generated (Python never dispatches it)',
                'pint mode is off (hszinc.use_pint not exercised)']
 FEATURES = {}
@@ -39,6 +41,14 @@ UNITS = ['m', '', None, u'\xb0C']
 
 def enc(x):
     """JSON-able operand."""
+    import fractions
+    import decimal
+    if isinstance(x, fractions.Fraction):
+        return ['frac', str(x)]
+    if isinstance(x, decimal.Decimal):
+        return ['dec', str(x)]
+    if isinstance(x, complex):
+        return ['complex', repr(x)]
     if isinstance(x, bool):
         return ['bool', x]
     if isinstance(x, int):
@@ -47,6 +57,14 @@ def enc(x):
 
 
 def dec(e):
+    import fractions
+    import decimal
+    if e[0] == 'frac':
+        return fractions.Fraction(e[1])
+    if e[0] == 'dec':
+        return decimal.Decimal(e[1])
+    if e[0] == 'complex':
+        return complex(e[1])
     if e[0] == 'bool':
         return bool(e[1])
     if e[0] == 'int':
@@ -75,6 +93,8 @@ def outcome(fn, *args):
 
 
 def nontrivial_operand(x):
+    if not isinstance(x, (int, float)):
+        return True
     return isinstance(x, bool) or x == 0 or x != x or x in (float('inf'), float('-inf'))
 
 
